@@ -15,7 +15,7 @@ BAD = ['project p "P" 2025-01-06 +1w { }\ntask a "A" { effort 1h allocate nobody
 
 def texts(ctx, n):
     out = []
-    fams = ["core", "subslot", "limits", "deps", "alap", "hours", "alts"]
+    fams = ["core", "subslot", "limits", "deps", "alap", "hours", "alts", "priotrees", "trees", "grouphours"]
     for i in range(n):
         ap = gens.family(ctx, fams[i % len(fams)], 1)[0]
         if ctx.rng.random() < 0.4:
@@ -44,7 +44,11 @@ def run(ctx):
             if k < 0.25:
                 hist.append({"text": ctx.rng.choice(BAD)})
             else:
-                hist.append({"text": ctx.rng.choice(tx), "report": ctx.rng.random() < 0.5, "reschedule": ctx.rng.random() < 0.3})
+                hist.append({"text": ctx.rng.choice(tx), "report": ctx.rng.random() < 0.5, "reschedule": ctx.rng.random() < 0.3, "manual": ctx.rng.random() < 0.2})
+        if ctx.rng.random() < 0.4:
+            # the call right before the target is one that ends in an explicit schedule() (a second one, or the only one)
+            hist[-1] = {"text": ctx.rng.choice(tx), "reschedule": ctx.rng.random() < 0.5}
+            hist[-1]["manual"] = not hist[-1]["reschedule"]
         mode = ctx.rng.choice(["history", "history+reuse", "repeat", "reschedule"])
         c = {"text": t}
         if mode.startswith("history"):
@@ -122,7 +126,7 @@ def run(ctx):
         violations.append({"no_input": True, "replay": common.write_replay(ctx, {"property": "C12", "kind": "proof obligation no longer checks; no failing input found", "failing_obligations": failing})})
     cov = {"obligations": nob, "discharged": ndis, "checker_cmd": "tools/coqbuild.sh (coqc 8.16.1 full .vo build)", "trusted_base": common.TRUSTED, "files": files,
            "traces_validated_against_impl": len(tx) * 4, "input_distribution": dict(stats), "hash_seeds": ["0"] + seeds,
-           "rule": "each project text (7 generator families incl. allocations with two or three alternatives on resources of differing availability, 40% with nested scenarios and scenario-specific efforts, a cost report attached) is processed (a) alone in a fresh process, (b) after a random history of 1-4 other parse/schedule/report calls incl. failing ones, with a fresh parser object per call or ONE parser object reused, (c) twice, (d) followed by a second schedule(), (e) under two further PYTHONHASHSEED values and under two other process time zones (TZ), (f) through run_scriptplan (the interface 'plan report' uses) alone and after 1-4 other such runs incl. runs the library ends with a fatal error; dates of all scenarios, the ledger and the report tables are compared",
+           "rule": "each project text (10 generator families incl. containers and groups that pass allocations, priorities, limits and calendars on to their members, allocations with two or three alternatives on resources of differing availability, 40% with nested scenarios and scenario-specific efforts, a cost report attached) is processed (a) alone in a fresh process, (b) after a random history of 1-4 other parse/schedule/report calls incl. failing ones, second schedule() calls and projects parsed without scheduling and scheduled by an explicit call, with a fresh parser object per call or ONE parser object reused, (c) twice, (d) followed by a second schedule(), (e) under two further PYTHONHASHSEED values and under two other process time zones (TZ), (f) through run_scriptplan (the interface 'plan report' uses) alone and after 1-4 other such runs incl. runs the library ends with a fatal error; dates of all scenarios, the ledger and the report tables are compared",
            "samples": [{"mode": kinds[0], "text": tx[0][:700]}]}
     common.finish(ctx, "proof", cov, violations,
                   ["partial: hash-seed and interpreter-level nondeterminism are outside the model and are covered by the runs only",
